@@ -330,6 +330,11 @@ func (w *World) pump(cs *connState) {
 			break // accumulating object, next header body not there yet
 		}
 		buf := cs.full[:cs.L]
+		if cs.c.Realloc {
+			nb := make([]byte, cs.L)
+			copy(nb, buf)
+			buf = nb
+		}
 		eofCall := cs.eof
 		prevCont := cs.cont
 		ret, err, pan := guarded(cs.drv, buf, cs.cont, eofCall)
